@@ -522,6 +522,6 @@ MANIFEST = dict(
         "grid_sample numerics are not decided."),
     level_note="Trusted: python ast; torch.rand in [0,1), .long() truncation; real-arithmetic idealisation of the eps tricks. "
                "Known finding F25: centre + shift in (L-1, L) is clamped onto the pinned last-frame knot (singular up to eps).",
-    technique="static analysis: abstract interpretation of the draw function over rationals compared with the documented formulas on a finite grid, slot-role dataflow, path typestate, eval-path identity, producer/consumer term composition over a finite grid",
+    technique="static analysis: abstract interpretation of the draw function over rationals compared with the documented formulas on a finite grid, slot-role dataflow, path typestate, eval-path identity, producer/consumer term composition over a finite grid; abstract interpretation of the mask application over {None, bool, set of bands} for the four masking combinations",
     design_ref="DESIGN.md section 4 C08",
 )
